@@ -34,6 +34,10 @@ func init() {
 		rtPath + ".Concrete":     extConcrete,
 		rtPath + ".isControl":    func(fr *frame, a []value) value { return false },
 		rtPath + ".Unsupported":  extUnsupported,
+		rtPath + ".And":          func(fr *frame, a []value) value { return fr.i.vAnd(a[0], a[1]) },
+		rtPath + ".Or":           func(fr *frame, a []value) value { return fr.i.vOr(a[0], a[1]) },
+		rtPath + ".Not":          func(fr *frame, a []value) value { return fr.i.vNot(a[0]) },
+		rtPath + ".Implies":      func(fr *frame, a []value) value { return fr.i.vOr(fr.i.vNot(a[0]), a[1]) },
 		rtPath + ".Ite":          extIte,
 		rtPath + ".IteU64":       extIte,
 
